@@ -118,6 +118,8 @@ var argsSeeds = []string{
 	`{"request_ip_range":[["10.0.70.2~10.0.70.4"]]}`,
 	`{"request_ip_range":[["10.0.70.2"],["10.0.70.3","10.0.70.5~10.0.70.6"]],"common":{"ipinfos":[{"ip":"10.0.70.2/24","vlan":2,"gateway":"10.0.70.1"}]}}`,
 	`{"common":{"ipinfos":[{"ip":"10.0.70.3/24","vlan":0,"gateway":"10.0.70.1"}]}}`,
+	`{"common":{"ipinfos":[{"ip":"10.0.70.200/24","vlan":0,"gateway":"10.0.70.1"}]}}`, // inside the pod subnet, outside the configured ranges
+	`{"common":{"ipinfos":[{"ip":"192.168.1.5/24","vlan":0,"gateway":"192.168.1.1"},{"ip":"10.0.70.4/24","vlan":0,"gateway":"10.0.70.1"}]}}`,
 	`{"request_ip_range":[["255.255.255.250~255.255.255.255"]]}`,
 	`{"request_ip_range":[["0.0.0.0~0.0.255.255"]]}`,
 	`{"request_ip_range":[[]]}`, `{"request_ip_range":[]}`, `{"common":{"ipinfos":[{"ip":null}]}}`, `{"common":{"ipinfos":[{}]}}`, `{"common":null}`,
@@ -128,7 +130,7 @@ func genPodSpec(t *rapid.T) *podSpec {
 		Name:     rapid.SampledFrom([]string{"s0-0", "s0-1", "x", "x-", "-1", "a-b-c-999999999999999999999", "d0-5d4f8b7c9-abcde", "", "s0--2"}).Draw(t, "name"),
 		Policy:   rapid.SampledFrom([]string{"", "immutable", "never", "IMMUTABLE", "x"}).Draw(t, "policy"),
 		Pool:     rapid.SampledFrom([]string{"", "", "p0", "a_b", "pool__"}).Draw(t, "pool"),
-		Phase:    rapid.SampledFrom([]string{"", "Pending", "Running", "Succeeded", "Failed", "Unknown"}).Draw(t, "phase"),
+		Phase:    rapid.SampledFrom([]string{"", "Pending", "Running", "Running", "Running", "Succeeded", "Failed", "Unknown"}).Draw(t, "phase"),
 		NodeName: rapid.SampledFrom([]string{"", "n0", "n9"}).Draw(t, "node"),
 		UID:      rapid.SampledFrom([]string{"", "u1", "u2"}).Draw(t, "uid"),
 		NilAnn:   rapid.IntRange(0, 5).Draw(t, "nilAnn") == 0, NoResource: rapid.IntRange(0, 7).Draw(t, "noRes") == 0}
@@ -235,7 +237,13 @@ func followUp(x *ipamsim.Exec) *vcore.Failure {
 	if w.Pods["s0-2"] == nil {
 		w.CreatePod(0, &x.C.WLs[0], "s0-2")
 	}
-	_, _, _, _ = w.Filter("s0-2", []string{"n0", "n1"})
+	nodes, _, _, _ := w.Filter("s0-2", []string{"n0", "n1"})
+	if len(nodes) > 0 && !w.Pods["s0-2"].Bound {
+		// a write: blocks for ever if an earlier request left the IPAM cache lock read-held
+		_, _ = w.Bind("s0-2", w.Pods["s0-2"].UID, nodes[0])
+	}
+	// a write that is always possible (re-keys nothing): takes the cache lock exclusively
+	_, _ = w.Plugin.GetIpam().ReserveIP("c18-no-such-key", "c18-no-such-key", floatingip.Attr{})
 	code, _ := x.HTTP("GET", "/v1/ip?size=3", nil)
 	if code != 200 {
 		return vcore.Failf("c18:followup", "benign GET /v1/ip after the request answers HTTP %d", code)
